@@ -35,6 +35,7 @@ def cases_for(rng, n, per):
 def run(rep):
     rng = random.Random(rep.seed)
     quick = rep.tier == "quick"
+    P.replay_witnesses(rep, PID)
     rep.rule = ("S->I: the MC_Peg 'kwd' universe (identifier-like and symbol literals, ID and regex next to them, "
                 "literal separators) with autokwd=True x all inputs of <= 4 symbols over {a, b, 1, +, space}; I->S: "
                 "seeded-random grammars mixing keyword-like and other literals, inputs with tokens glued together, "
